@@ -223,6 +223,15 @@ structure TrackOpts where
   force : Bool := false
   deriving Repr
 
+/-- the records written for a path tracked for the first time -/
+def newRec (p : Path) (stamp : Nat) (actual : Digest) (m : Method) (t : Tob) : Rec :=
+  { path := p, md := .stamp stamp, digests := [actual], method := m, tob := t }
+
+/-- the records of an already tracked path after `track` saw changed metadata -/
+def updRec (r : Rec) (stamp : Nat) (actual : Digest) (m : Method) (t : Tob) : Rec :=
+  { r with md := .stamp stamp, method := m, tob := t,
+           digests := if r.cur ≠ some actual then r.digests ++ [actual] else r.digests }
+
 /-- `cmd_track` for one explicit file target that reads as bytes `b` with modification stamp `stamp`. -/
 def St.trackFile (c : Cfg) (o : TrackOpts) (s : St) (p : Path) (b : Bytes) (stamp : Nat) : St × Out :=
   let reqM := o.method.getD c.method          -- `update_from_conf`: CLI or the configured default
@@ -231,8 +240,7 @@ def St.trackFile (c : Cfg) (o : TrackOpts) (s : St) (p : Path) (b : Bytes) (stam
   match s.findEnt p with
   | none =>
     -- path, metadata, method, tob and digest diffs are all `RecordMissing`
-    let r : Rec := { path := p, md := .stamp stamp, digests := [actual], method := reqM, tob := reqT }
-    let s1 := (s.setRec s.next (some r)).bumpNext
+    let s1 := (s.setRec s.next (some (newRec p stamp actual reqM reqT))).bumpNext
     if o.noCommit then (s1, .ok) else s1.carryOne p (addrOf p actual) reqM o.force
   | some e =>
     match s.recs e with
@@ -240,11 +248,8 @@ def St.trackFile (c : Cfg) (o : TrackOpts) (s : St) (p : Path) (b : Bytes) (stam
     | some r =>
       if r.md = .stamp stamp then (s, .ok)            -- nothing changed: every diff is `Skipped`
       else
-        let changedDigest := r.cur ≠ some actual
-        let r' : Rec := { r with md := .stamp stamp, method := reqM, tob := reqT,
-                                 digests := if changedDigest then r.digests ++ [actual] else r.digests }
-        let s1 := s.setRec e (some r')
-        if o.noCommit || !changedDigest then (s1, .ok)
+        let s1 := s.setRec e (some (updRec r stamp actual reqM reqT))
+        if o.noCommit || !(decide (r.cur ≠ some actual)) then (s1, .ok)
         else s1.carryOne p (addrOf p actual) reqM o.force
 
 /-- `cmd_track` restricted to one explicit file target (targets come from disk: a target that is not
@@ -456,6 +461,14 @@ def St.copy (c : Cfg) (o : CopyOpts) (s : St) (src dst : Path) : St × Out :=
             | none => (s, .panic)
             | some d => s.recheckFromCache dst (addrOf dst d) m
 
+/-- `move` deletes the source file unless it is renamed (copy → copy with recheck): it refuses when a
+    source file is present whose content is not in the cache -/
+def St.moveBlocked (s : St) (r : Rec) (src : Path) (m : Method) (noRecheck : Bool) : Bool :=
+  (s.ws src).isSome && !((r.method = .copy) && (m = .copy) && !noRecheck) &&
+  !(match r.cur with
+    | some d => (s.cache (addrOf src d)).isSome
+    | none => false)
+
 /-- `cmd_move`. -/
 def St.move (c : Cfg) (o : CopyOpts) (s : St) (src dst : Path) : St × Out :=
   match s.findEnt src with
@@ -469,8 +482,10 @@ def St.move (c : Cfg) (o : CopyOpts) (s : St) (src dst : Path) : St × Out :=
       else if (s.ws dst).isSome && !o.force then (s, .refused)                        -- F10 repair
       else
         let m := o.method.getD r.method
-        let s := s.setRec se (some { r with path := dst, method := m })
         let bothCopy := (r.method = .copy) && (m = .copy)
+        if s.moveBlocked r src m o.noRecheck then (s, .refused)
+        else
+        let s := s.setRec se (some { r with path := dst, method := m })
         if bothCopy then
           if src = dst then (s, .ok)
           else if o.noRecheck then
